@@ -10,6 +10,7 @@ package main
 import (
 	"os"
 	"path/filepath"
+	"regexp"
 	"strings"
 )
 
@@ -22,6 +23,11 @@ type Seed struct {
 	Expect string // rule id that must report a violation
 	// Silent seeds are behaviour-preserving edits: NO rule of the property may fire.
 	Silent bool
+	// All replaces every occurrence of Old (used for renames); More holds further replace-all pairs.
+	All  bool
+	More [][2]string
+	// Words: Old/More are identifiers, replaced as whole words only (\bname\b)
+	Words bool
 }
 
 var seeds []Seed
@@ -52,10 +58,27 @@ func runSeed(p *Property, s Seed, dir string) SeedResult {
 		return SeedResult{s.Name, "skipped", "file missing: " + s.File}
 	}
 	src := string(data)
-	if strings.Count(src, s.Old) != 1 {
-		return SeedResult{s.Name, "skipped", "anchor text not found exactly once in " + s.File}
+	var mut string
+	if s.All {
+		if strings.Count(src, s.Old) == 0 {
+			return SeedResult{s.Name, "skipped", "anchor text not found in " + s.File}
+		}
+		rep := func(text, old, new string) string {
+			if s.Words {
+				return regexp.MustCompile(`\b`+regexp.QuoteMeta(old)+`\b`).ReplaceAllString(text, new)
+			}
+			return strings.ReplaceAll(text, old, new)
+		}
+		mut = rep(src, s.Old, s.New)
+		for _, m := range s.More {
+			mut = rep(mut, m[0], m[1])
+		}
+	} else {
+		if strings.Count(src, s.Old) != 1 {
+			return SeedResult{s.Name, "skipped", "anchor text not found exactly once in " + s.File}
+		}
+		mut = strings.Replace(src, s.Old, s.New, 1)
 	}
-	mut := strings.Replace(src, s.Old, s.New, 1)
 	w, err := Load(LoadOpts{Dir: dir, Overlay: map[string][]byte{path: []byte(mut)}})
 	if err != nil {
 		return SeedResult{s.Name, "nocompile", err.Error()}
@@ -72,6 +95,9 @@ func runSeed(p *Property, s Seed, dir string) SeedResult {
 	var fired []string
 	hit := false
 	for _, o := range c.Obs {
+		if o.Status == Undecided && s.Silent {
+			fired = append(fired, "UNDECIDED "+o.Rule+" "+o.Key)
+		}
 		if o.Status == Violated {
 			fired = append(fired, o.Rule+" "+o.Key)
 			if o.Rule == s.Expect {
